@@ -29,7 +29,7 @@ type c14Mut struct {
 	Arg int    `json:"arg"`
 }
 
-var c14Muts = []string{"cb-amount-plus1", "cb-proposer-plus", "cb-proposer-plus", "cb-amount-minus1", "cb-extra-recipient", "cb-missing-recipient", "cb-vote-output"}
+var c14Muts = []string{"cb-amount-plus1", "cb-proposer-plus", "cb-proposer-plus", "cb-amount-minus1", "cb-extra-recipient", "cb-missing-recipient", "cb-zero-standin", "cb-zero-standin", "cb-vote-output"}
 
 func c14Gen(t *rapid.T) c14Case {
 	p := ck.Params{Epoch: uint64(rapid.IntRange(3, 5).Draw(t, "epoch")), Validators: rapid.IntRange(1, 4).Draw(t, "validators"), NodeKey: -1,
